@@ -14,6 +14,9 @@ import (
 	"github.com/openconfig/gribigo/server"
 	"github.com/openconfig/ygot/ygot"
 
+	aftpb "github.com/openconfig/gribi/v1/proto/gribi_aft"
+	spb "github.com/openconfig/gribi/v1/proto/service"
+
 	"verifharness/canon"
 	"verifharness/ev"
 	"verifharness/gen"
@@ -207,6 +210,36 @@ func TestCheck(t *testing.T) {
 			f.mu.Unlock()
 			run.Count("fold_comparisons", 1)
 		}
+		// Back-to-back add / delete of one top-level key (and flush right after an add): a snapshot
+		// that is not taken at the moment of the change would show the later state.
+		if len(probs) == 0 && i%3 == 0 {
+			ni := g.S.NIs[r.Intn(len(g.S.NIs))]
+			base := []gen.OpSpec{g.MkOp(spb.AFTOperation_ADD, canon.NH, ni, 0, true)}
+			grp := g.MkOp(spb.AFTOperation_ADD, canon.NHG, ni, 0, false)
+			grp.Op.GetNextHopGroup().NextHopGroup = &aftpb.Afts_NextHopGroup{NextHop: []*aftpb.Afts_NextHopGroup_NextHopKey{{Index: g.S.NHs[0], NextHop: &aftpb.Afts_NextHopGroup_NextHop{Weight: gen.U(1)}}}}
+			base = append(base, grp)
+			for _, o := range base {
+				before := x.M.Contents()
+				specs[o.Op.GetId()] = o
+				_, p := x.Do(o)
+				probs = append(probs, p...)
+				expectResolved += resolvedCount(o, specs, before, x) // held entries may be released
+			}
+			for k := 0; k < 12 && len(probs) == 0; k++ {
+				tbl := []canon.Table{canon.V4, canon.V6, canon.MPLS}[k%3]
+				add := g.MkOp(spb.AFTOperation_ADD, tbl, ni, k, true)
+				setNHG(add.Op, g.S.NHGs[0])
+				del := g.MkOp(spb.AFTOperation_DELETE, tbl, ni, k, false)
+				for _, o := range []gen.OpSpec{add, del} {
+					before := x.M.Contents()
+					specs[o.Op.GetId()] = o
+					_, p := x.Do(o)
+					probs = append(probs, p...)
+					expectResolved += resolvedCount(o, specs, before, x)
+				}
+				run.Count("back_to_back_add_delete_pairs", 1)
+			}
+		}
 		// Resolved-entry snapshots: wait for the asynchronous callbacks (watchdog: inconclusive).
 		done := make(chan struct{})
 		go func() {
@@ -266,6 +299,18 @@ func TestCheck(t *testing.T) {
 	})
 	run.Assume("a DELETE notification for a key that is not installed carries a nil entry and is ignored by the fold")
 	run.Finish("seeded histories (8-48 ops, as C01, with held operations and flushes) on RIBs built in 4 configurations (all NIs before hook registration; VRFs via AddNetworkInstance after it; server.New with WithVRFs; server.New then Server.AddNetworkInstance); the post-change fold is compared with the model after every step, every resolved-entry snapshot is re-hashed at the end. Non-trivial = history leaves entries", 100, false)
+}
+
+// setNHG points a top-level entry at group id of its own network instance.
+func setNHG(op *spb.AFTOperation, id uint64) {
+	switch e := op.Entry.(type) {
+	case *spb.AFTOperation_Ipv4:
+		e.Ipv4.Ipv4Entry.NextHopGroup, e.Ipv4.Ipv4Entry.NextHopGroupNetworkInstance = gen.U(id), nil
+	case *spb.AFTOperation_Ipv6:
+		e.Ipv6.Ipv6Entry.NextHopGroup, e.Ipv6.Ipv6Entry.NextHopGroupNetworkInstance = gen.U(id), nil
+	case *spb.AFTOperation_Mpls:
+		e.Mpls.LabelEntry.NextHopGroup, e.Mpls.LabelEntry.NextHopGroupNetworkInstance = gen.U(id), nil
+	}
 }
 
 // resolvedCount returns how many resolved-entry notifications the step must produce:
